@@ -221,6 +221,14 @@ def run_impl(case):
             o["gcm"] = [[[int(v) for v in g2[g, j].reshape(-1)] for g in range(len(o["groups"]))] for j in range(len(thr))]
         samples.append(o)
     out["samples"] = samples
+    # history: swap() AFTER the per-group views of the original have been used (cache filled)
+    late = gs.swap()
+    ol = _observe(case, late)
+    ol["cm"] = [[int(v) for v in m.reshape(-1)] for m in late.cm(thr).matrix]
+    if len(ol["groups"]):
+        g3 = late.group_cm(thr).matrix
+        ol["gcm"] = [[[int(v) for v in g3[g, j].reshape(-1)] for g in range(len(ol["groups"]))] for j in range(len(thr))]
+    out["swap_late"] = ol
     return out
 
 
@@ -379,6 +387,8 @@ def oracle(case, res):
         if (s["sc"] == case["sc"]) or (s["ec"] == case["ec"]):
             fails.append(("C12/swap/flags", "swap() did not flip score_class / equal_class"))
     _check_object("swap", s, thr, fails)
+    if "swap_late" in r:
+        _check_object("swap-after-use", r["swap_late"], thr, fails)
     # indexing
     for it in r["items"]:
         g = it["g"]
